@@ -1,52 +1,945 @@
+// h_c17: correspondence harness for C17 (labels.FastRegexMatcher = anchored regexp semantics).
+// For generated patterns it builds the real FastRegexMatcher, dumps the optimised matcher
+// (via the verif export shim), parses the pattern with regexp/syntax exactly as the code does
+// and dumps that tree, and records MatchString / SetMatches and the answer of Go's standard
+// regexp ^(?s:pattern)$ on strings derived from the pattern plus mutations.
 package main
 
 import (
 	"fmt"
+	"os"
 	"regexp"
+	"sort"
 	"strings"
+	"unicode"
+	"unicode/utf8"
 
+	gsyntax "github.com/grafana/regexp/syntax"
 	"github.com/prometheus/prometheus/model/labels"
+
+	"verif/harness/internal/gallina"
+	"verif/harness/internal/gen"
 )
 
-func try(pat string, ss ...string) {
-	m, err := labels.NewFastRegexMatcher(pat)
-	if err != nil {
-		fmt.Println("ERR", pat, err)
+type desc struct {
+	Pattern string   `json:"pattern"`
+	Strings []string `json:"strings"`
+	Fast    []bool   `json:"fast"`
+	Std     []bool   `json:"std"`
+	Diverge []string `json:"diverging_strings,omitempty"`
+	Path    string   `json:"path"`
+	Shape   string   `json:"shape"`
+	Corpus  string   `json:"corpus,omitempty"`
+}
+
+// ---------------------------------------------------------------- Gallina printing
+func zs(vs []int64) string {
+	it := make([]string, len(vs))
+	for i, v := range vs {
+		it[i] = fmt.Sprint(v)
+	}
+	if len(it) == 0 {
+		return "[]"
+	}
+	return "[" + strings.Join(it, "; ") + "]"
+}
+
+func runesOf(s string) string {
+	var v []int64
+	for _, r := range s {
+		v = append(v, int64(r))
+	}
+	return zs(v)
+}
+
+func bytesOf(s string) string {
+	var v []int64
+	for i := 0; i < len(s); i++ {
+		v = append(v, int64(s[i]))
+	}
+	return zs(v)
+}
+
+func strList(ss []string, f func(string) string) string {
+	it := make([]string, len(ss))
+	for i, s := range ss {
+		it[i] = f(s)
+	}
+	return gallina.List(it)
+}
+
+func dumpRe(r *gsyntax.Regexp) (string, bool) {
+	fold := gallina.Bool(r.Flags&gsyntax.FoldCase != 0)
+	subs := func() (string, bool) {
+		it := make([]string, len(r.Sub))
+		for i, s := range r.Sub {
+			d, ok := dumpRe(s)
+			if !ok {
+				return "", false
+			}
+			it[i] = d
+		}
+		return gallina.List(it), true
+	}
+	one := func(c string) (string, bool) {
+		d, ok := dumpRe(r.Sub[0])
+		return "(" + c + " " + d + ")", ok
+	}
+	switch r.Op {
+	case gsyntax.OpNoMatch:
+		return "RNoMatch", true
+	case gsyntax.OpEmptyMatch:
+		return "(REmpty " + fold + ")", true
+	case gsyntax.OpLiteral:
+		var v []int64
+		for _, c := range r.Rune {
+			v = append(v, int64(c))
+		}
+		return "(RLit " + fold + " " + zs(v) + ")", true
+	case gsyntax.OpCharClass:
+		if len(r.Rune)%2 != 0 {
+			return "", false
+		}
+		var it []string
+		for i := 0; i+1 < len(r.Rune); i += 2 {
+			it = append(it, fmt.Sprintf("(%d, %d)", r.Rune[i], r.Rune[i+1]))
+		}
+		return "(RClass " + fold + " " + gallina.List(it) + ")", true
+	case gsyntax.OpAnyCharNotNL:
+		return "RAnyNotNL", true
+	case gsyntax.OpAnyChar:
+		return "RAny", true
+	case gsyntax.OpBeginText:
+		return "RBeginText", true
+	case gsyntax.OpEndText:
+		return "REndText", true
+	case gsyntax.OpCapture:
+		return one("RCapture")
+	case gsyntax.OpStar:
+		return one("RStar")
+	case gsyntax.OpPlus:
+		return one("RPlus")
+	case gsyntax.OpQuest:
+		return one("RQuest")
+	case gsyntax.OpRepeat:
+		d, ok := dumpRe(r.Sub[0])
+		return fmt.Sprintf("(RRepeat %d (%d) %s)", r.Min, r.Max, d), ok
+	case gsyntax.OpConcat:
+		d, ok := subs()
+		return "(RConcat " + d + ")", ok
+	case gsyntax.OpAlternate:
+		d, ok := subs()
+		return "(RAlt " + d + ")", ok
+	}
+	return "", false
+}
+
+func dumpSM(m *labels.VerifSM) (string, bool) {
+	opt := func(x *labels.VerifSM) (string, bool) {
+		if x == nil {
+			return "None", true
+		}
+		d, ok := dumpSM(x)
+		return "(Some " + d + ")", ok
+	}
+	switch m.Kind {
+	case "equal":
+		return "(SEqual " + runesOf(m.S) + " " + gallina.Bool(m.CS) + ")", true
+	case "empty":
+		return "SEmpty", true
+	case "or":
+		it := make([]string, len(m.Or))
+		for i, x := range m.Or {
+			d, ok := dumpSM(x)
+			if !ok {
+				return "", false
+			}
+			it[i] = d
+		}
+		return "(SOr " + gallina.List(it) + ")", true
+	case "contains":
+		l, ok1 := opt(m.Left)
+		r, ok2 := opt(m.Right)
+		return "(SContains " + l + " " + strList(m.Subs, runesOf) + " " + r + ")", ok1 && ok2
+	case "prefix", "prefixi":
+		r, ok := dumpSM(m.Right)
+		return "(SPrefix " + gallina.Bool(m.CS) + " " + runesOf(m.S) + " " + r + ")", ok
+	case "suffix":
+		l, ok := dumpSM(m.Left)
+		return "(SSuffix " + l + " " + runesOf(m.S) + " " + gallina.Bool(m.CS) + ")", ok
+	case "anyne":
+		return "(SAnyNonEmpty " + gallina.Bool(m.NL) + ")", true
+	case "zero1":
+		return "(SZeroOrOne " + gallina.Bool(m.NL) + ")", true
+	case "nonl":
+		return "SNoNL", true
+	case "true":
+		return "STrue", true
+	case "mslice":
+		return "(SMultiSlice " + gallina.Bool(m.CS) + " " + strList(m.Subs, runesOf) + ")", true
+	case "mmap":
+		f := bytesOf
+		if m.CS {
+			f = runesOf
+		}
+		it := make([]string, len(m.PrefixKeys))
+		for i, k := range m.PrefixKeys {
+			ms := make([]string, len(m.Prefixes[i]))
+			for j, x := range m.Prefixes[i] {
+				d, ok := dumpSM(x)
+				if !ok {
+					return "", false
+				}
+				ms[j] = d
+			}
+			it[i] = "(" + bytesOf(k) + ", " + gallina.List(ms) + ")"
+		}
+		return fmt.Sprintf("(SMultiMap %s %s %d %s)", gallina.Bool(m.CS), strList(m.Subs, f), m.MinPrefixLen, gallina.List(it)), true
+	}
+	return "", false
+}
+
+// findMap returns the (single) equalMultiStringMapMatcher in a dump, if any.
+func findMap(m *labels.VerifSM) *labels.VerifSM {
+	if m == nil {
+		return nil
+	}
+	if m.Kind == "mmap" {
+		return m
+	}
+	for _, x := range m.Or {
+		if r := findMap(x); r != nil {
+			return r
+		}
+	}
+	if r := findMap(m.Left); r != nil {
+		return r
+	}
+	return findMap(m.Right)
+}
+
+func collectLeaves(m *labels.VerifSM, eq, pre *[]string) {
+	if m == nil {
 		return
 	}
-	re := regexp.MustCompile("^(?s:" + pat + ")$")
-	for _, s := range ss {
-		a, b := m.MatchString(s), re.MatchString(s)
-		flag := ""
-		if a != b {
-			flag = "  <<<<<< DIVERGE"
-		}
-		fmt.Printf("%q on %q: fast=%v std=%v%s\n", pat, s, a, b, flag)
+	switch m.Kind {
+	case "equal":
+		*eq = append(*eq, m.S)
+	case "prefix", "prefixi":
+		*pre = append(*pre, m.S)
+	}
+	for _, x := range m.Or {
+		collectLeaves(x, eq, pre)
 	}
 }
 
-func main() {
-	var alts []string
-	for i := 0; i < 16; i++ {
-		alts = append(alts, fmt.Sprintf("v%d", i))
+func isASCII(s string) bool {
+	for i := 0; i < len(s); i++ {
+		if s[i] >= utf8.RuneSelf {
+			return false
+		}
 	}
-	a := strings.Join(alts, "|")
-	try("(?i:fi|"+a+")", "fi", "FI", "\ufb01", "Fi")
-	try("(?i:\u00e9|"+a+")", "\u00e9", "e\u0301", "\u00c9", "E\u0301")
-	try("(?i:e\u0301|"+a+")", "\u00e9", "e\u0301")
-	try("(?i:k.*|"+a+")", "kx", "Kx", "\u212ax", "k", "\u212a")
-	try("(?i:s.*|"+a+")", "sx", "\u017fx")
-	try("(?i:\u212a.*|"+a+")", "kx", "Kx", "\u212ax")
-	try("(?i:kelvin|"+a+")", "kelvin", "\u212aelvin", "KELVIN")
-	try("(?i:\u017f|s1|"+a+")", "s", "S", "\u017f")
-	try("(?i:ǆ|"+a+")", "ǆ", "ǅ", "Ǆ")
-	try("(?i:ς|"+a+")", "ς", "σ", "Σ")
-	try("(?i:µ|"+a+")", "µ", "μ", "Μ")
-	try("(?i:ß|"+a+")", "ß", "ẞ", "ss")
-	try("(?i:İ|"+a+")", "İ", "i", "i̇")
-	try("(?i:ı|"+a+")", "ı", "I", "i")
-	try("(?i:ǰ|"+a+")", "ǰ", "ǰ")
-	try("(?i:Ω|"+a+")", "Ω", "ω", "Ω")
-	try("(?i:é.*|"+a+")", "éx", "Éx")
-	try("(?i:aé.*|b|"+a+")", "aéx", "AÉx", "b")
+	return true
+}
+
+func orbit(r rune) []rune {
+	o := []rune{r}
+	for x := unicode.SimpleFold(r); x != r; x = unicode.SimpleFold(x) {
+		o = append(o, x)
+	}
+	return o
+}
+
+// ---------------------------------------------------------------- generators
+var words = []string{"foo", "bar", "baz", "a", "b", "ab", "k", "s", "K", "S", "fi", "Kelvin", "ss", "x1", "10", "-", "_", "prom", "é", "É",
+	"ß", "σ", "ς", "Σ", "µ", "ǆ", "日本", "é", "K", "ſ", "ΑΣ", "I", "i", "ı", "İ", "aé", "zz", "foo-bar", "a.b", "q"}
+
+var alphabet = []rune{'a', 'b', 'c', 'f', 'i', 'k', 's', 'x', 'o', 'r', 'z', 'A', 'B', 'K', 'S', 'F', 'O', '0', '1', '-', '_', ' ', '\n', '.',
+	'é', 'É', 'ß', 'σ', 'ς', 'Σ', 'µ', 'μ', 'K', 'ſ', 'ǆ', 'ǅ', 'Ǆ', '日', 'ﬁ', '́', 'ẞ', 'İ', 'ı', '\U0001F600'}
+
+func lit(r *gen.Rand) string {
+	if r.Chance(1, 6) {
+		n := 1 + r.Intn(3)
+		var sb strings.Builder
+		for i := 0; i < n; i++ {
+			c := gen.Pick(r, alphabet)
+			if c == '\n' {
+				c = 'n'
+			}
+			sb.WriteRune(c)
+		}
+		return regexp.QuoteMeta(sb.String())
+	}
+	return regexp.QuoteMeta(gen.Pick(r, words))
+}
+
+func wild(r *gen.Rand) string {
+	return gen.Pick(r, []string{".*", ".+", ".?", ".*", ".+", "(?-s:.*)", "(?-s:.+)", "(?-s:.?)", "(?s:.*)", "."})
+}
+
+func class(r *gen.Rand) string {
+	return gen.Pick(r, []string{"[a-c]", "[ab]", "[^a]", "[0-9]", `\d`, "[kK]", "[a-cx]", "[σς]", "[é]", `\w`, "[^\\n]", "[a-zA-Z]", "[sSſ]", "[a-bA-B]"})
+}
+
+func altLits(r *gen.Rand, n int) string {
+	it := make([]string, n)
+	common := ""
+	if r.Chance(1, 3) {
+		common = lit(r)
+	}
+	for i := range it {
+		switch {
+		case r.Chance(1, 3):
+			it[i] = common + lit(r)
+		case r.Chance(1, 2):
+			it[i] = common + fmt.Sprintf("v%d", r.Intn(400))
+		default:
+			it[i] = lit(r) + fmt.Sprintf("%d", r.Intn(30))
+		}
+	}
+	return strings.Join(it, "|")
+}
+
+func genRe(r *gen.Rand, d int) string {
+	if d <= 0 {
+		switch r.Intn(6) {
+		case 0:
+			return wild(r)
+		case 1:
+			return class(r)
+		default:
+			return lit(r)
+		}
+	}
+	switch r.Intn(16) {
+	case 0, 1:
+		return lit(r)
+	case 2:
+		return wild(r)
+	case 3:
+		return class(r)
+	case 4, 5, 6:
+		n := 2 + r.Intn(3)
+		var sb strings.Builder
+		for i := 0; i < n; i++ {
+			sb.WriteString(genRe(r, d-1))
+		}
+		return sb.String()
+	case 7, 8:
+		n := 2 + r.Intn(3)
+		it := make([]string, n)
+		for i := range it {
+			it[i] = genRe(r, d-1)
+			if r.Chance(1, 12) {
+				it[i] = ""
+			}
+		}
+		g := "(?:"
+		if r.Chance(1, 3) {
+			g = "("
+		}
+		return g + strings.Join(it, "|") + ")"
+	case 9:
+		return "(" + genRe(r, d-1) + ")"
+	case 10:
+		return "(?i:" + genRe(r, d-1) + ")"
+	case 11:
+		x := genRe(r, d-1)
+		return "(?:" + x + ")" + gen.Pick(r, []string{"*", "+", "?", "{2}", "{1,3}", "{2,}", "{0,2}", "*?", "??"})
+	case 12:
+		return "(?:" + altLits(r, 2+r.Intn(5)) + ")"
+	case 13:
+		return gen.Pick(r, []string{"^", "$", "", "^", "$"}) + genRe(r, d-1) + gen.Pick(r, []string{"$", "", "^"})
+	case 14:
+		return "((" + genRe(r, d-1) + "))"
+	default:
+		return lit(r) + wild(r)
+	}
+}
+
+// templates shaped after the optimisation cases of regexp.go
+func genTemplate(r *gen.Rand) string {
+	L := func() string { return lit(r) }
+	W := func() string { return wild(r) }
+	A := func(n int) string { return altLits(r, n) }
+	ci := func(s string) string {
+		if r.Chance(1, 2) {
+			return "(?i:" + s + ")"
+		}
+		return s
+	}
+	switch r.Intn(30) {
+	case 0:
+		return L() + W()
+	case 1:
+		return W() + L()
+	case 2:
+		return W() + L() + W()
+	case 3:
+		return L() + W() + L()
+	case 4:
+		return W() + L() + W() + L() + W()
+	case 5:
+		return ci(L()) + W()
+	case 6:
+		return W() + ci(L())
+	case 7:
+		return "(" + A(2+r.Intn(4)) + ")" + W()
+	case 8:
+		return W() + "(" + A(2+r.Intn(4)) + ")"
+	case 9:
+		return W() + "(" + A(2+r.Intn(4)) + ")" + W()
+	case 10:
+		return "(?i)(" + A(2+r.Intn(20)) + ")"
+	case 11:
+		return L() + "(" + A(2+r.Intn(3)) + ")"
+	case 12:
+		return "(" + A(2+r.Intn(3)) + ")(" + A(2+r.Intn(3)) + ")"
+	case 13:
+		return class(r) + L()
+	case 14:
+		n := 2 + r.Intn(3)
+		it := make([]string, n)
+		for i := range it {
+			it[i] = ".*" + L() + ".*"
+		}
+		return strings.Join(it, "|")
+	case 15:
+		return "^" + L() + W() + "$"
+	case 16:
+		return A(2 + r.Intn(30))
+	case 17:
+		// many alternates with prefixes: the map + prefix path
+		n := 14 + r.Intn(8)
+		it := make([]string, n)
+		for i := range it {
+			if r.Chance(1, 3) {
+				it[i] = L() + fmt.Sprint(i) + W()
+			} else {
+				it[i] = L() + fmt.Sprint(i)
+			}
+		}
+		return ci(strings.Join(it, "|"))
+	case 18:
+		n := 14 + r.Intn(8)
+		it := make([]string, n)
+		for i := range it {
+			it[i] = L() + gen.Pick(r, []string{"", "", "x", fmt.Sprint(i)})
+			if r.Chance(1, 4) {
+				it[i] += W()
+			}
+		}
+		return ci("(" + strings.Join(it, "|") + ")")
+	case 19:
+		return "(?i:" + A(14+r.Intn(6)) + ")"
+	case 20:
+		return ci(L()) + "(" + A(2) + ")" + W()
+	case 21:
+		return W() + W()
+	case 22:
+		return L() + class(r) + W()
+	case 23:
+		return "(" + L() + "|" + L() + W() + "|" + W() + L() + ")"
+	case 24:
+		return ci(L() + W() + L())
+	case 25:
+		return L() + "|" + L() + "|"
+	case 26:
+		return A(250 + r.Intn(12))
+	case 27:
+		return class(r) + class(r) + gen.Pick(r, []string{"", class(r)})
+	case 28:
+		return W() + "(?i:" + L() + ")" + W()
+	default:
+		return L() + "(" + W() + "|" + L() + ")"
+	}
+}
+
+// sample produces a string the tree is likely to match.
+func sample(r *gen.Rand, re *gsyntax.Regexp, sb *strings.Builder) {
+	anyRune := func(nl bool) rune {
+		for {
+			c := gen.Pick(r, alphabet)
+			if nl || c != '\n' {
+				return c
+			}
+		}
+	}
+	switch re.Op {
+	case gsyntax.OpLiteral:
+		for _, c := range re.Rune {
+			if re.Flags&gsyntax.FoldCase != 0 && r.Chance(1, 2) {
+				o := orbit(c)
+				c = o[r.Intn(len(o))]
+			}
+			sb.WriteRune(c)
+		}
+	case gsyntax.OpCharClass:
+		if len(re.Rune) >= 2 {
+			i := 2 * r.Intn(len(re.Rune)/2)
+			lo, hi := re.Rune[i], re.Rune[i+1]
+			c := lo + rune(r.Intn(int(min(hi-lo, 3))+1))
+			if c >= 0xD800 && c <= 0xDFFF || c > unicode.MaxRune {
+				c = 'a'
+			}
+			sb.WriteRune(c)
+		}
+	case gsyntax.OpAnyChar:
+		sb.WriteRune(anyRune(true))
+	case gsyntax.OpAnyCharNotNL:
+		sb.WriteRune(anyRune(false))
+	case gsyntax.OpCapture:
+		sample(r, re.Sub[0], sb)
+	case gsyntax.OpStar:
+		for i := r.Intn(3); i > 0; i-- {
+			sample(r, re.Sub[0], sb)
+		}
+	case gsyntax.OpPlus:
+		for i := 1 + r.Intn(2); i > 0; i-- {
+			sample(r, re.Sub[0], sb)
+		}
+	case gsyntax.OpQuest:
+		if r.Bool() {
+			sample(r, re.Sub[0], sb)
+		}
+	case gsyntax.OpRepeat:
+		n := re.Min
+		if (re.Max < 0 || re.Max > re.Min) && r.Bool() {
+			n++
+		}
+		for i := 0; i < n; i++ {
+			sample(r, re.Sub[0], sb)
+		}
+	case gsyntax.OpConcat:
+		for _, s := range re.Sub {
+			sample(r, s, sb)
+		}
+	case gsyntax.OpAlternate:
+		if len(re.Sub) > 0 {
+			sample(r, re.Sub[r.Intn(len(re.Sub))], sb)
+		}
+	}
+}
+
+var compat = [][2]string{{"fi", "ﬁ"}, {"é", "é"}, {"É", "É"}, {"k", "K"}, {"K", "K"}, {"s", "ſ"}, {"S", "ſ"},
+	{"σ", "ς"}, {"ς", "σ"}, {"ss", "ß"}, {"ß", "ẞ"}, {"µ", "μ"}, {"i", "İ"}, {"I", "ı"}, {"ǆ", "ǅ"}, {"é", "é"}}
+
+func mutate(r *gen.Rand, s string) string {
+	rs := []rune(s)
+	switch r.Intn(12) {
+	case 0:
+		if len(rs) > 0 {
+			i := r.Intn(len(rs))
+			rs = append(rs[:i:i], rs[i+1:]...)
+		}
+	case 1:
+		i := r.Intn(len(rs) + 1)
+		rs = append(rs[:i:i], append([]rune{gen.Pick(r, alphabet)}, rs[i:]...)...)
+	case 2:
+		if len(rs) > 0 {
+			rs[r.Intn(len(rs))] = gen.Pick(r, alphabet)
+		}
+	case 3:
+		if len(rs) > 0 {
+			i := r.Intn(len(rs))
+			o := orbit(rs[i])
+			rs[i] = o[r.Intn(len(o))]
+		}
+	case 4:
+		for i := range rs {
+			o := orbit(rs[i])
+			rs[i] = o[r.Intn(len(o))]
+		}
+	case 5:
+		i := r.Intn(len(rs) + 1)
+		rs = append(rs[:i:i], append([]rune{'\n'}, rs[i:]...)...)
+	case 6:
+		rs = append(rs, gen.Pick(r, alphabet))
+	case 7:
+		rs = append([]rune{gen.Pick(r, alphabet)}, rs...)
+	case 8, 9:
+		c := gen.Pick(r, compat)
+		return strings.Replace(s, c[0], c[1], 1)
+	case 10:
+		if len(rs) > 1 {
+			i := r.Intn(len(rs) - 1)
+			rs[i], rs[i+1] = rs[i+1], rs[i]
+		}
+	default:
+		if len(rs) > 0 {
+			i := r.Intn(len(rs))
+			rs = append(rs[:i+1:i+1], rs[i:]...)
+		}
+	}
+	return string(rs)
+}
+
+// ---------------------------------------------------------------- one pattern
+type result struct {
+	pat     string
+	strs    []string
+	fast    []bool
+	std     []bool
+	dump    labels.VerifFRM
+	parsed  *gsyntax.Regexp
+	astTerm string
+}
+
+func pathOf(d labels.VerifFRM) string {
+	var p []string
+	if !d.HasRe {
+		p = append(p, "altlit")
+	}
+	if len(d.SetMatches) == 1 {
+		p = append(p, "set1")
+	} else if len(d.SetMatches) > 1 {
+		p = append(p, "setN")
+	}
+	if d.SM != nil {
+		k := d.SM.Kind
+		if (k == "mmap" || k == "mslice" || k == "equal" || k == "prefix" || k == "suffix") && !d.SM.CS {
+			k += "-ci"
+		}
+		if k == "mmap" || k == "mmap-ci" {
+			if len(d.SM.PrefixKeys) > 0 {
+				k += "-prefixes"
+			}
+		}
+		p = append(p, "sm:"+k)
+	}
+	if d.Prefix != "" {
+		if d.CaseInsensitivePrefix {
+			p = append(p, "ciprefix")
+		} else {
+			p = append(p, "prefix")
+		}
+	}
+	if d.Suffix != "" {
+		p = append(p, "suffix")
+	}
+	if len(d.Contains) > 0 {
+		p = append(p, "contains")
+	}
+	if d.SM != nil && d.SM.Kind == "nil" && d.HasRe {
+		p = append(p, "re")
+	}
+	return strings.Join(p, "+")
+}
+
+func main() {
+	f := gallina.ParseFlags()
+	meta := gallina.NewMeta("C17", f.Seed, f.Tier)
+	meta.Rule = "corpus of fixed patterns (regexp_test.go shapes + reproducers) first, then seeded patterns: half from templates shaped after the optimisation cases of regexp.go, half from a random regex grammar (literals incl. Unicode/fold-sensitive runes, wildcards with and without (?s), classes, captures, (?i:), repeats, anchors, empty branches, alternations of 2..260 literals); per pattern up to 24 strings: samples of the parsed tree, mutations of them (delete/insert/replace/fold-variant/compatibility-variant/newline), SetMatches members, fixed strings. Non-trivial = the matcher is optimised (not only the regexp fallback) and the strings contain both a match and a non-match; distinct by pattern text"
+	goOnly := os.Getenv("C17_GOONLY") != ""
+	cf := &gallina.CaseFile{Dir: f.Out, Type: "case", PerShard: 60,
+		Preamble: "From Coq Require Import List ZArith.\nFrom Verif Require Import lib.Regex model.FastRegex corr.CorrC17.\nImport ListNotations.\nOpen Scope Z_scope.\n",
+		Footer:   gallina.StdFooter}
+	id := 0
+	seen := map[string]bool{}
+	skipped := map[string]int{}
+
+	emit := func(r *gen.Rand, pat string, extra []string, corpus string) {
+		if seen[pat] || !utf8.ValidString(pat) {
+			return
+		}
+		seen[pat] = true
+		m, err := labels.NewFastRegexMatcher(pat)
+		if err != nil {
+			skipped["rejected"]++
+			return
+		}
+		std, err := regexp.Compile("^(?s:" + pat + ")$")
+		if err != nil {
+			skipped["std-rejected"]++
+			return
+		}
+		parsed, err := gsyntax.Parse(pat, gsyntax.Perl|gsyntax.DotNL)
+		if err != nil {
+			skipped["parse"]++
+			return
+		}
+		astTerm, ok := dumpRe(parsed)
+		if !ok {
+			skipped["unsupported-op"]++
+			return
+		}
+		dump := m.VerifDump()
+		// strings
+		var strs []string
+		sset := map[string]bool{}
+		add := func(s string) {
+			if !sset[s] && utf8.ValidString(s) && len(s) < 200 {
+				sset[s] = true
+				strs = append(strs, s)
+			}
+		}
+		for _, s := range extra {
+			add(s)
+		}
+		nS := 7
+		for i := 0; i < nS; i++ {
+			var sb strings.Builder
+			sample(r, parsed, &sb)
+			s := sb.String()
+			add(s)
+			add(mutate(r, s))
+			if r.Chance(1, 2) {
+				add(mutate(r, mutate(r, s)))
+			}
+		}
+		sm := dump.SetMatches
+		for i := 0; i < len(sm) && i < 6; i++ {
+			s := sm[r.Intn(len(sm))]
+			add(s)
+			add(mutate(r, s))
+		}
+		add("")
+		add("\n")
+		add(gen.Pick(r, words))
+		if len(strs) > 24 {
+			strs = strs[:24]
+		}
+		// partition by ASCII-ness when a case-insensitive map matcher is involved (shape keys)
+		mp := findMap(dump.SM)
+		groups := [][]string{strs}
+		shapes := []string{"normal"}
+		if mp != nil && !mp.CS {
+			var a, n []string
+			for _, s := range strs {
+				if isASCII(s) {
+					a = append(a, s)
+				} else {
+					n = append(n, s)
+				}
+			}
+			groups = [][]string{a, n}
+			if len(mp.PrefixKeys) > 0 {
+				shapes = []string{"normal", "ci-map-prefixes-nonascii-input"}
+			} else {
+				shapes = []string{"normal", "ci-map-values-nonascii-input"}
+			}
+		}
+		smTerm := "None"
+		if dump.SM.Kind != "nil" {
+			d, ok := dumpSM(dump.SM)
+			if !ok {
+				skipped["unsupported-sm"]++
+				return
+			}
+			smTerm = "(Some " + d + ")"
+		}
+		reTerm := "None"
+		if dump.HasRe {
+			reTerm = "(Some RNoMatch)"
+		}
+		frmTerm := fmt.Sprintf("(mkFrm %s %s %s %s %s %s %s)", reTerm, strList(dump.SetMatches, runesOf), smTerm,
+			gallina.Bool(dump.CaseInsensitivePrefix), runesOf(dump.Prefix), runesOf(dump.Suffix), strList(dump.Contains, runesOf))
+		path := pathOf(dump)
+		for gi, g := range groups {
+			if len(g) == 0 {
+				continue
+			}
+			// oracle tables
+			orbs := map[rune]bool{}
+			var orbTerms []string
+			noteRunes := func(s string) {
+				for _, c := range s {
+					o := orbit(c)
+					if len(o) > 1 {
+						sort.Slice(o, func(i, j int) bool { return o[i] < o[j] })
+						if !orbs[o[0]] {
+							orbs[o[0]] = true
+							v := make([]int64, len(o))
+							for i, x := range o {
+								v[i] = int64(x)
+							}
+							orbTerms = append(orbTerms, zs(v))
+						}
+					}
+				}
+			}
+			noteRunes(pat)
+			for _, s := range g {
+				noteRunes(s)
+			}
+			// also runes of class ranges are covered by ranges themselves (folds are in the class)
+			nl := map[string]string{}
+			tl := map[string]string{}
+			if mp != nil && !mp.CS {
+				var eq, pre []string
+				p2, _ := gsyntax.Parse(pat, gsyntax.Perl|gsyntax.DotNL)
+				collectLeaves(labels.VerifDumpSM(labels.VerifUnoptimizedStringMatcher(p2)), &eq, &pre)
+				p3, _ := gsyntax.Parse(pat, gsyntax.Perl|gsyntax.DotNL)
+				tm, _ := labels.VerifTopSetMatches(p3)
+				eq = append(eq, tm...)
+				for _, s := range eq {
+					if !isASCII(s) {
+						nl[s] = labels.VerifToNormalisedLower(s)
+					}
+				}
+				for _, p := range pre {
+					if len(p) >= mp.MinPrefixLen {
+						k := p[:mp.MinPrefixLen]
+						if !isASCII(k) {
+							tl[k] = strings.ToLower(k)
+						}
+					}
+				}
+				for _, s := range g {
+					if !isASCII(s) {
+						nl[s] = labels.VerifToNormalisedLower(s)
+					}
+					if mp.MinPrefixLen > 0 && len(s) >= mp.MinPrefixLen {
+						k := s[:mp.MinPrefixLen]
+						if !isASCII(k) {
+							nl[k] = labels.VerifToNormalisedLower(k)
+						}
+					}
+				}
+			}
+			tabTerm := func(t map[string]string) string {
+				ks := make([]string, 0, len(t))
+				for k := range t {
+					ks = append(ks, k)
+				}
+				sort.Strings(ks)
+				it := make([]string, len(ks))
+				for i, k := range ks {
+					it[i] = "(" + bytesOf(k) + ", " + bytesOf(t[k]) + ")"
+				}
+				return gallina.List(it)
+			}
+			fast := make([]bool, len(g))
+			stdv := make([]bool, len(g))
+			var div []string
+			it := make([]string, len(g))
+			anyT, anyF := false, false
+			for i, s := range g {
+				fast[i] = m.MatchString(s)
+				stdv[i] = std.MatchString(s)
+				if fast[i] != stdv[i] {
+					div = append(div, s)
+				}
+				if stdv[i] {
+					anyT = true
+				} else {
+					anyF = true
+				}
+				it[i] = fmt.Sprintf("(%s, %s, %s)", runesOf(s), gallina.Bool(fast[i]), gallina.Bool(stdv[i]))
+			}
+			if goOnly && len(div) > 0 {
+				fmt.Printf("DIVERGE pat=%q path=%s shape=%s strings=%q\n", pat, path, shapes[gi], div)
+			}
+			cf.Add(fmt.Sprintf("mkCase %d %s %s %s %s %s %s %s", id, runesOf(pat), astTerm, gallina.List(orbTerms), tabTerm(nl), tabTerm(tl), frmTerm, gallina.List(it)))
+			meta.Case(id, desc{Pattern: pat, Strings: g, Fast: fast, Std: stdv, Diverge: div, Path: path, Shape: shapes[gi], Corpus: corpus})
+			meta.Evaluations += len(g)
+			meta.Hit("path:" + path)
+			if shapes[gi] != "normal" {
+				meta.Hit("shape:" + shapes[gi])
+			}
+			if anyT && anyF && path != "sm:nil+re" && path != "re" {
+				meta.Nontrivial++
+			}
+			id++
+		}
+	}
+
+	// corpus
+	for i, c := range corpus {
+		emit(gen.Fork(f.Seed, 1_000_000+i), c.pat, c.strs, c.name)
+	}
+	n := f.Count(260, 12000)
+	for i := 0; i < n; i++ {
+		r := gen.Fork(f.Seed, i)
+		var pat string
+		if r.Bool() {
+			pat = genTemplate(r)
+		} else {
+			pat = genRe(r, 1+r.Intn(3))
+		}
+		if r.Chance(1, 15) {
+			pat = "(?i)" + pat
+		}
+		if len(pat) > 3000 {
+			continue
+		}
+		emit(r, pat, nil, "")
+	}
+	for k, v := range skipped {
+		meta.Dist["skipped:"+k] = v
+	}
+	if !goOnly {
+		cf.Flush()
+	}
+	meta.Write(f.Out)
+}
+
+type corpusEntry struct {
+	name, pat string
+	strs      []string
+}
+
+func manyAlts(n int) string {
+	it := make([]string, n)
+	for i := range it {
+		it[i] = fmt.Sprintf("v%d", i)
+	}
+	return strings.Join(it, "|")
+}
+
+var corpus = []corpusEntry{
+	{"empty", "", []string{"", "a"}},
+	{"literal", "foo", []string{"foo", "fo", "fooo", "Foo"}},
+	{"alt-literals", "foo|bar|baz", []string{"foo", "bar", "baz", "ba", "foobar"}},
+	{"alt-literals-empty-branch", "foo||bar", []string{"", "foo", "bar", "|"}},
+	{"prefix-dotstar", "foo.*", []string{"foo", "foobar", "foo\n", "fo", "xfoo"}},
+	{"suffix-dotstar", ".*foo", []string{"foo", "barfoo", "\nfoo", "foox"}},
+	{"contains", ".*foo.*", []string{"foo", "afoob", "a\nfoo\nb", "fo"}},
+	{"contains-plus", ".+foo.+", []string{"foo", "afoob", "afoo", "foob", "afoofoob", "foofoofoo"}},
+	{"contains-repeat-occurrence", ".?foo.?", []string{"foo", "afoofoo", "foofoo", "afoob", "fooxfoo"}},
+	{"prefix-suffix", "foo.*bar", []string{"foobar", "fooxbar", "foobarx", "fobar"}},
+	{"in-order", ".*foo.*bar.*", []string{"foobar", "barfoo", "xfooybarz", "foo", "bar"}},
+	{"ci-prefix", "(?i:foo).*", []string{"foo", "FOOx", "fOo\n", "fo"}},
+	{"ci-suffix", ".*(?i:foo)", []string{"foo", "xFOO", "FoOx"}},
+	{"ci-kelvin", "(?i:k).*", []string{"k", "K", "K", "Kx", "x"}},
+	{"ci-kelvin-suffix", ".*(?i:k)", []string{"k", "K", "K", "xK", "x"}},
+	{"ci-longs", "(?i:s)", []string{"s", "S", "ſ", "x"}},
+	{"ci-alt", "(?i)(foo|bar)", []string{"foo", "FOO", "Bar", "baz"}},
+	{"alt-prefix", "(foo|bar).*", []string{"foo", "barx", "baz"}},
+	{"alt-suffix", ".*(foo|bar)", []string{"foo", "xbar", "barx"}},
+	{"alt-contains", ".*(foo|bar).*", []string{"foo", "xbary", "baz"}},
+	{"simple-contains-alt", ".*foo.*|.*bar.*", []string{"foo", "xbary", "baz", "a\nfoo"}},
+	{"concat-alts", "(foo|bar)(baz|qux)", []string{"foobaz", "barqux", "fooqux", "foo", "baz"}},
+	{"class", "[ab]c", []string{"ac", "bc", "cc", "c"}},
+	{"anchors", "^foo$", []string{"foo", "fooo"}},
+	{"anchors-wild", "^.*foo$", []string{"foo", "xfoo", "foox"}},
+	{"anchor-middle", "foo^bar", []string{"foobar", "foo", "bar"}},
+	{"anchor-alt", "(^foo|bar$)", []string{"foo", "bar", "baz"}},
+	{"nl", "(?-s:.*)foo", []string{"foo", "xfoo", "\nfoo"}},
+	{"nl-plus", "foo(?-s:.+)", []string{"foo", "foox", "foo\n", "foox\n"}},
+	{"zero-or-one", "foo.?", []string{"foo", "foox", "foo\n", "fooxx", "foo日", "foo日本"}},
+	{"zero-or-one-nonl", "foo(?-s:.?)", []string{"foo", "foox", "foo\n", "fooxx"}},
+	{"map-16", manyAlts(16), []string{"v0", "v15", "v16", "v"}},
+	{"map-300", manyAlts(300), []string{"v0", "v299", "v300"}},
+	{"map-256-grouped", "(" + manyAlts(256) + ")", []string{"v0", "v255", "v256"}},
+	{"map-257-grouped", "(" + manyAlts(257) + ")", []string{"v0", "v255", "v256", "v257"}},
+	{"map-prefixes", "(" + manyAlts(15) + "|foo.*|bar.+)", []string{"v3", "foo", "foox", "bar", "barx", "ba"}},
+	{"map-prefixes-short", "(" + manyAlts(15) + "|f.*|é.*|bar.+)", []string{"v3", "f", "fx", "é", "éx", "barx"}},
+	{"ci-map-ascii", "(?i:" + manyAlts(16) + "|foo)", []string{"V3", "FOO", "foo", "fo"}},
+	{"ci-map-nfkd-ligature", "(?i:fi|" + manyAlts(16) + ")", []string{"fi", "FI", "ﬁ", "Fi"}},
+	{"ci-map-nfkd-decomposed", "(?i:é|" + manyAlts(16) + ")", []string{"é", "é", "É"}},
+	{"ci-map-final-sigma", "(?i:ς|" + manyAlts(16) + ")", []string{"ς", "σ", "Σ"}},
+	{"ci-map-prefix-kelvin", "(?i:k.*|" + manyAlts(16) + ")", []string{"kx", "Kx", "Kx", "K"}},
+	{"ci-map-prefix-nonascii", "(?i:é.*|" + manyAlts(16) + ")", []string{"éx", "Éx", "é"}},
+	{"ci-slice-unicode", "(?i:ς|fi|é)", []string{"ς", "σ", "Σ", "ﬁ", "é", "É"}},
+	{"repeat", "(?:ab){2,3}", []string{"abab", "ababab", "ab", "abababab"}},
+	{"star-of-group", "(?:a|b)*c", []string{"c", "abc", "abac", "d"}},
+	{"captured-any", "(.)*", []string{"", "abc"}},
+	{"true", ".*", []string{"", "a", "\n"}},
+	{"plus", ".+", []string{"", "a", "\n"}},
+	{"nonl-star", "(?-s:.*)", []string{"", "a", "a\nb"}},
+	{"ip-like", "10\\.0\\.(1|2)\\.+", []string{"10.0.1.", "10.0.2...", "10.0.3."}},
+	{"empty-alt", "(|foo)bar", []string{"bar", "foobar", "foo"}},
+	{"begin-star", "(?:^)*foo", []string{"foo", "fo"}},
+	{"dollar-only", "^$", []string{"", "a"}},
 }
